@@ -182,9 +182,10 @@ fn c07_eval(cfg: &ChainCfg, e: Exec, failures: &mut Vec<(String, String)>) -> u6
 pub fn run_c07(tier: Tier) -> i32 {
     let start = Instant::now();
     let rs: Vec<u64> = if tier == Tier::Quick {
-        vec![0, 1, 1_000_000, 999_000_000, 1_000_000_000, 10_000_000_000, 3_600_000_000_000, 400 * 86_400_000_000_000]
+        // (spans beyond the two years the deadline *timers* support still travel exactly)
+        vec![0, 1, 1_000_000, 999_000_000, 1_000_000_000, 10_000_000_000, 3_600_000_000_000, 400 * 86_400_000_000_000, 1_100 * 86_400_000_000_000, 40_000 * 86_400_000_000_000]
     } else {
-        vec![0, 1, 999, 1_000_000, 1_500_000, 999_000_000, 1_000_000_000, 1_000_000_001, 10_000_000_000, 60_000_000_000, 3_600_000_000_000, 400 * 86_400_000_000_000, 700 * 86_400_000_000_000]
+        vec![0, 1, 999, 1_000_000, 1_500_000, 999_000_000, 1_000_000_000, 1_000_000_001, 10_000_000_000, 60_000_000_000, 3_600_000_000_000, 400 * 86_400_000_000_000, 700 * 86_400_000_000_000, 731 * 86_400_000_000_000, 1_100 * 86_400_000_000_000, 11_000 * 86_400_000_000_000, 40_000 * 86_400_000_000_000]
     };
     let taus: Vec<u64> = if tier == Tier::Quick { vec![0, 1, 1000, 20_000] } else { vec![0, 1, 7, 1000, 20_000, 3_600_000] };
     let kinds = [HopKind::Mem, HopKind::Json, HopKind::Bincode];
